@@ -24,7 +24,7 @@ structure Fs where
 deriving Repr, DecidableEq
 
 def Fs.step (fs : Fs) : FsEvent → Fs
-  | .mkTmp k => { fs with tmp := fs.tmp ++ [k] }
+  | .mkTmp k => { fs with tmp := if fs.tmp.contains k then fs.tmp else fs.tmp ++ [k] }
   | .commit k => { fs with tmp := fs.tmp.filter (· ≠ k), committed := fs.committed ++ [k] }
   | .delStart k => { fs with deleting := if fs.deleting.contains k then fs.deleting else fs.deleting ++ [k] }
   | .delDone k => { fs with deleting := fs.deleting.filter (· ≠ k), committed := fs.committed.filter (· ≠ k) }
@@ -35,13 +35,14 @@ def Fs.run (fs : Fs) (evs : List FsEvent) : Fs := evs.foldl Fs.step fs
 def Fs.latest (fs : Fs) : Option Nat := fs.committed.getLast?
 
 /-- is this event allowed by the protocol in this directory state?
-    mkTmp k   : k is newer than every committed step and has no temporary directory yet
+    mkTmp k   : k is newer than every committed step (a temporary directory left by a crashed save of the same step is simply
+                recreated after the resume, so one may already exist)
     commit k  : a temporary directory of k exists and k is newer than every committed step
     delStart j: j is committed and **older than the latest committed step** (a deletion interrupted by a crash is simply started again
                 after the resume, so j may already be half-deleted)
     delDone j : j is being deleted -/
 def okEvent (fs : Fs) : FsEvent → Bool
-  | .mkTmp k => fs.committed.all (· < k) && !fs.tmp.contains k
+  | .mkTmp k => fs.committed.all (· < k)
   | .commit k => fs.tmp.contains k && fs.committed.all (· < k)
   | .delStart j => fs.committed.contains j && (match fs.latest with | some l => decide (j < l) | none => false)
   | .delDone j => fs.deleting.contains j
